@@ -357,7 +357,7 @@ def run(ctx):
         return
     os.environ["C30_PYC"] = os.path.join(ctx.tmpdir(), "pyc")
     os.makedirs(os.environ["C30_PYC"], exist_ok=True)
-    n = ctx.scale(32, 640)
+    n = ctx.scale(32, 320)
     k = ctx.scale(UNITS_PER_CASE, UNITS_PER_CASE_THOROUGH)
     try:
         ctx.pmap(_worker, [(subseed(ctx.seed, PID, w), n // 16, k) for w in range(16)])
